@@ -37,6 +37,7 @@ def setup(rep, tier):
     rep.minimum('R07.6', 2)
     rep.minimum('R07.7', 2)
     rep.minimum('R07.8', 2)
+    rep.minimum('R07.9', 1)
 
 
 def rooted_at_param(f, lv, pidx):
@@ -430,7 +431,9 @@ def r07_6(rep, prog):
     cf = cfgm.CFG(f)
     pb = f.param_index('begin')
     nviews = 0
-    for fld in ('len', 'frames', 'paddings', 'padding_len'):
+    # (rp->paddings / padding_len are not per-frame tables: the extension region of a packet is stored with that packet's
+    #  first frame, which may lie before `begin`; the selection of extensions by frame range is decided by C16's R16.6)
+    for fld in ('len', 'frames'):
         uses = [(b, i, n) for b, i, n in cf.find(lambda n: sx.kind(n) == 'field' and n[2] == 'OpusRepacketizer' and n[3] == fld)]
         if not uses:
             continue
@@ -526,7 +529,36 @@ def r07_78(rep, prog):
             rep.unresolved('R07.8', '%s: no success return / no %s call found' % (fname, gate))
 
 
+# ------------------------------------------------------------------ R07.9
+def r07_9(rep, prog):
+    """what cat() accepted can be emitted: out_range_impl fails only for reasons the caller controls - an illegal
+    range (OPUS_BAD_ARG) or too small a buffer (OPUS_BUFFER_TOO_SMALL, its own or the extension generator's).  It
+    has no return of OPUS_INTERNAL_ERROR or OPUS_INVALID_PACKET: the stored frames were validated by cat(), and
+    the stored padding may hold any bytes (RFC 6716 3.2.5), so a padding that does not parse as extensions is padding,
+    not an error."""
+    f = prog.fn('opus_repacketizer_out_range_impl')
+    cf = cfgm.CFG(f)
+    rep.functions.add(f.name)
+    bad = []
+    n = 0
+    for b, i, s_ in T.returns_of(cf):
+        n += 1
+        v = sx.int_val(sx.strip(s_[1])) if len(s_) > 1 else None
+        if v in (-3, -4):
+            g = [sx.show(c) for c, pol, gb in cfgm.guards_of(cf, b) if c is not None][:2]
+            bad.append((sx.line(s_), v, g))
+    inst = '%s:opus_repacketizer_out_range_impl fails only for an illegal range or a too small buffer' % prog.config
+    if bad:
+        rep.violated('R07.9', inst, '%s:%s' % (f.file, bad[0][0]), 'returns %s at line %s under %s: the contents of a packet that cat() accepted make out / out_range / pad fail' % (
+            'OPUS_INTERNAL_ERROR' if bad[0][1] == -3 else 'OPUS_INVALID_PACKET', bad[0][0], bad[0][2]), key='out-range-content-error')
+    elif n < 5:
+        rep.unresolved('R07.9', inst + ': only %d returns found' % n)
+    else:
+        rep.holds('R07.9', inst, f.where(), '%d return sites: BAD_ARG, BUFFER_TOO_SMALL, the generator\'s result, the size' % n)
+
+
 def check(rep, prog, tier):
+    r07_9(rep, prog)
     r07_78(rep, prog)
     r07_5(rep, prog)
     r07_6(rep, prog)
